@@ -69,6 +69,31 @@ fn main() {
             let tier = args.get(3).cloned().unwrap_or_else(|| std::env::var("VERIF_TIER").unwrap_or_else(|_| "quick".into()));
             std::process::exit(check::main_check(&prop, &tier));
         }
+        Some("selftest") => {
+            // determinism on a sample: every family, each seed twice, same event hash
+            let n: u64 = args.get(2).and_then(|s| s.parse().ok()).unwrap_or(8);
+            let fams = ["rc-mixed", "rc-weak", "rc-cells", "rc-wcells", "rc-bulk", "ebr", "ebr-churn", "guards", "tls", "dir-t1", "dir-t2", "dir-t3", "dir-t4", "dir-t5", "dir-t6", "dir-w", "queue", "list", "chain", "agesweep"];
+            let mut bad = 0;
+            let mut total = 0;
+            for f in fams {
+                for seed in 1..=n {
+                    let desc = gen::generate("C01", f, rng::mix(&[seed, rng::hash_str(f)]));
+                    let a = runner::fork_run(&desc);
+                    let b = runner::fork_run(&desc);
+                    total += 1;
+                    if a.json.getu("hash") != b.json.getu("hash") || a.json.getu("steps") != b.json.getu("steps") || a.signature() != b.signature() {
+                        bad += 1;
+                        eprintln!("selftest: nondeterminism in family {} seed {}: {} / {}", f, seed, a.json.getu("hash"), b.json.getu("hash"));
+                    }
+                    if matches!(a.res, runner::Res::HarnessError | runner::Res::Timeout) {
+                        bad += 1;
+                        eprintln!("selftest: harness error in family {} seed {}: {}", f, seed, a.json.gets("detail"));
+                    }
+                }
+            }
+            println!("selftest: {} descriptions run twice, {} problems", total, bad);
+            std::process::exit(if bad == 0 { 0 } else { 2 });
+        }
         Some("replay") => {
             std::process::exit(minimize::replay(args.get(2).map(|s| s.as_str()).unwrap_or("")));
         }
